@@ -296,3 +296,8 @@ Definition v_agree (c : vcase) : bool :=
   | _, _ => false
   end.
 Definition v_ok (c : vcase) : bool := true.
+
+(* typed constructors used by the generated case files (cheaper to elaborate than pair notation) *)
+Definition kz (k : string) (v : Z) : string * Z := (k, v).
+Definition ks (k : string) (v : string) : string * string := (k, v).
+Definition tp (nid : string) (p : plan) : string * plan := (nid, p).
